@@ -44,6 +44,7 @@ func cmdVC(args []string) {
 	lemmas := fs.String("lemmas", "", "comma separated lemma names")
 	bv := fs.Bool("bv", false, "machine integers (64-bit vectors)")
 	ssaDump := fs.Bool("ssa", false, "print the SSA of the functions instead of verifying")
+	siteDiff := fs.Bool("sitediff", false, "list the sites whose ordinal differs between the historical and the strict total order")
 	_ = fs.Parse(args)
 	t0 := time.Now()
 	c, err := vc.Load(*repo, strings.Split(*pkgs, ","))
@@ -58,6 +59,12 @@ func cmdVC(args []string) {
 	if err := c.LoadRepoSpecs(); err != nil {
 		fmt.Fprintln(os.Stderr, err)
 		os.Exit(2)
+	}
+	if *siteDiff {
+		for _, l := range c.SiteOrderDiff() {
+			fmt.Println(l)
+		}
+		return
 	}
 	if *bv {
 		c = c.Fork(true)
